@@ -12,6 +12,8 @@ INVARIANT CallsPlusKept
 INVARIANT OnlyPastIsKept
 INVARIANT MechanismIsLaw
 INVARIANT SpellingIsNotKey
+INVARIANT CellsJoinIsLaw
+INVARIANT CacheJoinIsLaw
 INVARIANT CallsAreUncachedRows
 INVARIANT OncePerKey
 INVARIANT KeptRows
